@@ -277,11 +277,12 @@ Proof. intros H H2. lia. Qed.
 Definition hdr_hyp_of (k : kind) (evs : list event) : Prop :=
   match k with Scalar => True | Vec _ => hdr_hyp [] evs = true end.
 
-Theorem search_fixed_spec evs :
+Theorem search_fixed_from_spec n0 evs :
   let jobs := all_jobs evs in
   let k := kind_of jobs in
+  weakn k n0 ->
   ends_with_flush evs = true -> kind_wf k -> Forall (consistent k) jobs -> hdr_hyp_of k evs ->
-  match search_fixed evs with
+  match search_fixed_from n0 evs with
   | NoTable => jobs = []
   | Raised => False
   | Table h rows =>
@@ -290,10 +291,10 @@ Theorem search_fixed_spec evs :
       /\ (exists j0, In j0 jobs /\ (h = header_of k j0 \/ h = header_of k j0 ++ [CPareto]))
   end.
 Proof.
-  intros jobs k Hfl Hwf Hcons Hhyp. unfold search_fixed, final.
-  pose proof (runF k Hwf evs Hhyp Hcons) as HI.
-  destruct (run_complete infer_fixed evs Hfl) as [Hpend _].
-  remember (run infer_fixed evs) as s0 eqn:Es0. clear Es0. destruct s0 as [st tbl]. unfold InvF in HI. cbn [fst snd] in *.
+  intros jobs k Hn0 Hfl Hwf Hcons Hhyp. unfold search_fixed_from, final.
+  pose proof (runF_n k Hwf n0 evs Hn0 Hhyp Hcons) as HI.
+  destruct (run_complete_from infer_fixed n0 evs Hfl) as [Hpend _].
+  remember (run_from infer_fixed n0 evs) as s0 eqn:Es0. clear Es0. destruct s0 as [st tbl]. unfold InvF in HI. cbn [fst snd] in *.
   destruct HI as [(Hs & Hc & Ht & Hp & Hn)|(Hs & h & j0 & Hc & Hh & Hj0 & Hhd & Hp & Hn & Hrows)].
   - subst tbl. cbn [fst]. fold jobs in Hp. rewrite <- Hp. exact Hpend.
   - fold jobs in Hj0, Hrows. rewrite Hh.
@@ -305,7 +306,8 @@ Proof.
       * split; [|split; [|split]].
         -- exists jobs. split; [apply Permutation_refl|]. eapply Forall2_imp; [|exact Hrows]. intros j r. apply shows_cells.
         -- apply header_has_id.
-        -- exists j0. split; [exact Hj0|]. fold k. rewrite Ek. split; [intros c Hc'; right; exact Hc'|intros c Hc'; exact Hc'].
+        -- exists j0, Scalar. split; [exact Hj0|]. split; [left; fold k; rewrite Ek; reflexivity|].
+           split; [intros c Hc'; right; exact Hc'|intros c Hc'; exact Hc'].
         -- apply pareto_spec_trivial. rewrite objcols_header. cbn. lia.
       * eapply Forall2_imp; [|exact Hrows]. intros j r. apply shows_cells.
       * exists j0. split; [exact Hj0|left; reflexivity].
@@ -327,7 +329,7 @@ Proof.
       * split; [|split; [|split]].
         -- exists jobs. split; [apply Permutation_refl|exact Hcells].
         -- apply in_or_app. left. apply header_has_id.
-        -- exists j0. split; [exact Hj0|]. fold k. rewrite Ek. split.
+        -- exists j0, (Vec m). split; [exact Hj0|]. split; [left; fold k; rewrite Ek; reflexivity|]. split.
            ++ intros c Hc'. apply in_app_or in Hc' as [Hc'|[<-|[]]]; [right; exact Hc'|left; reflexivity].
            ++ intros c Hc'. apply in_or_app. left. exact Hc'.
         -- intros _. split; [|split; [|split]].
@@ -337,4 +339,27 @@ Proof.
            ++ exists pts. split; [rewrite A4; exact Hpts|]. rewrite A5. apply (nds_mask_spec m). exact Hsl.
       * exact Hcells.
       * exists j0. split; [exact Hj0|right; reflexivity].
+Qed.
+
+Theorem search_fixed_spec evs :
+  let jobs := all_jobs evs in
+  let k := kind_of jobs in
+  ends_with_flush evs = true -> kind_wf k -> Forall (consistent k) jobs -> hdr_hyp_of k evs ->
+  match search_fixed evs with
+  | NoTable => jobs = []
+  | Raised => False
+  | Table h rows =>
+      TableSpec jobs h rows
+      /\ Forall2 (CellsSpec h) jobs rows
+      /\ (exists j0, In j0 jobs /\ (h = header_of k j0 \/ h = header_of k j0 ++ [CPareto]))
+  end.
+Proof. intros jobs k. apply (search_fixed_from_spec None evs). left. reflexivity. Qed.
+
+(* the value of num_objective a run leaves behind is compatible with the kind of its jobs *)
+Lemma nobj_after_weak n0 evs :
+  let k := kind_of (all_jobs evs) in
+  weakn k n0 -> kind_wf k -> Forall (consistent k) (all_jobs evs) -> hdr_hyp_of k evs ->
+  weakn k (nobj (fst (run_from infer_fixed n0 evs))).
+Proof.
+  intros k Hn Hwf Hc Hh. apply (InvF_weak k (all_jobs evs)). apply runF_n; assumption.
 Qed.
